@@ -13,6 +13,14 @@ class Opts(object):
         self.ws_insensitive = ws_insensitive
 
 
+def _as_index_loop(n):
+    if isinstance(n, SRep):
+        return n
+    if isinstance(n, SSeqRep) and isinstance(n.seq, tuple) and len(n.seq) == 2 and n.seq[0] == "seq":
+        return SRep(n.var, ep.const(0), ep.app(("len", n.seq[1]), []), n.body)
+    return None
+
+
 class Cmp(object):
     def __init__(self, interp, opts=None):
         self.I = interp
@@ -124,6 +132,11 @@ class Cmp(object):
                 self.diff(where, "literal text differs: found %r expect %r" % (a.text, b.text))
             return
         if type(a) is not type(b):
+            # 'for k, e in enumerate(S)' / 'for e in S' and 'for i in range(len(S))' visit the same elements: the loop
+            # variable of an element loop is the element's index
+            a2, b2 = _as_index_loop(a), _as_index_loop(b)
+            if a2 is not None and b2 is not None and type(a2) is type(b2) and (a2 is not a or b2 is not b):
+                return self.node_(a2, b2, where)
             self.diff(where, "different constructs: found %s expect %s" % (_short(a), _short(b)))
             return
         if isinstance(a, SFmt):
